@@ -89,8 +89,19 @@ BOUNDARY_F64 = [0.0, -0.0, 1.0, -1.0, float("inf"), float("-inf"), 5e-324,
                 1.7976931348623157e+308, 0.1, -2.5e-300]
 
 
+# NaNs with a sign and a payload: only where the value never leaves Python floats (the Python codec legs); f32 patterns are quiet
+# NaNs, which survive the float <-> double conversions bit for bit
+NAN_OK = False
+NAN_F32 = [0x7fc00000, 0xffc00000, 0x7fc00001, 0xffffffff, 0x7fd55555]
+NAN_F64 = [0x7ff8000000000000, 0xfff8000000000000, 0x7ff8000000000001, 0xffffffffffffffff, 0x7ff0000000000001, 0xfff4000000000000]
+
+
 def rand_value(rng, sch, t, budget=None):
     k = t["k"]
+    if NAN_OK and k == "f32" and rng.random() < 0.15:
+        return int_to_bits(rng.choice(NAN_F32), 32)
+    if NAN_OK and k == "f64" and rng.random() < 0.15:
+        return int_to_bits(rng.choice(NAN_F64), 64)
     if k == "u":
         w = t["w"]
         c = [0, 1, (1 << w) - 1, (1 << (w - 1)) - 1, 1 << (w - 1), rng.getrandbits(w)]
